@@ -25,6 +25,9 @@
                 assert!(r.start <= r.end && r.end <= src.len(), "range {r:?} out of bounds for a {}-byte source", src.len());
                 assert!(src.is_char_boundary(r.start) && src.is_char_boundary(r.end), "range {r:?} not on char boundaries");
                 let _ = &src[r.clone()];
+                // the reported line is the line of the range start (below the u16 saturation point)
+                let nl = src[..r.start].bytes().filter(|b| *b == b'\n').count();
+                if nl < 65000 { assert!(line == nl + 1, "line {line} but the range starts on line {} in {src:?}", nl + 1); }
             }
             let mut sink = String::new();
             write!(sink, "{e}").unwrap(); write!(sink, "{e:#}").unwrap(); write!(sink, "{e:?}").unwrap(); write!(sink, "{e:#?}").unwrap();
@@ -63,6 +66,35 @@
                     }
                 }
             }
+        }
+        // blank lines INSIDE tags and expressions before the failing construct
+        for inner in ["{% set x = [\n\n\n1,\n\n2 ] %}", "{{ [1,\n\n\n 2]|length }}", "{% if true\n\n\n %}y{% endif %}", "{#\n\n\n#}"] {
+            for (construct, _) in cases {
+                let src = format!("{inner}{construct}");
+                let e = render_err(&src);
+                check_error(&e, &src, "t.txt");
+                let nl = inner.bytes().filter(|b| *b == b'\n').count();
+                let base = render_err(construct);
+                assert!(e.line() == Some(base.line().unwrap() + nl), "{src:?}: line {:?}, expected {}", e.line(), base.line().unwrap() + nl);
+            }
+        }
+        // errors at the very end of a source that ends in a newline, with keep_trailing_newline: formatting must not panic
+        for tail in ["{# unterminated", "{% raw %}never closed", "{{ 'abc", "{{ 1 +", "{% for x in y %}"] {
+            for lead in ["", "a\n", "é\n\n", "l1\nl2\nl3\n"] {
+                for end in ["", "\n", "\n\n"] {
+                    let src = format!("{lead}{tail}{end}");
+                    let mut env = Environment::new();
+                    env.set_debug(true);
+                    env.set_keep_trailing_newline(true);
+                    let e = match env.add_template("t.txt", &src) { Err(e) => e, Ok(()) => env.get_template("t.txt").unwrap().render(()).unwrap_err() };
+                    let _ = format!("{e} {e:#} {e:?} {e:#?} {}", e.display_debug_info());
+                    if let Some(r) = e.range() { assert!(r.end <= src.len() && src.is_char_boundary(r.start) && src.is_char_boundary(r.end), "{src:?}: {r:?}"); }
+                }
+            }
+        }
+        for expr in ["", " ", "\n", "1 +", "(", "é é", "\n\n1 +\n"] {
+            let env = Environment::new();
+            if let Err(e) = env.compile_expression(expr) { let _ = format!("{e} {e:#} {e:?} {e:#?} {}", e.display_debug_info()); }
         }
         // beyond 65535 lines the line saturates but nothing panics and ranges stay valid
         let big = format!("{}{{{{ 'abc", "\n".repeat(70_000));
